@@ -581,7 +581,8 @@ const maxCharPadding = 10000
 
 func filterCenter(in *Value, param *Value) (*Value, *Error) {
 	width := param.Integer()
-	slen := in.Len()
+	// (the width counts the characters of what is printed, also for numbers)
+	slen := utf8.RuneCountInString(in.String())
 	if width <= slen {
 		return in, nil
 	}
@@ -685,7 +686,8 @@ func filterLinenumbers(in *Value, param *Value) (*Value, *Error) {
 }
 
 func filterLjust(in *Value, param *Value) (*Value, *Error) {
-	times := param.Integer() - in.Len()
+	// (the width counts the characters of what is printed, also for numbers)
+	times := param.Integer() - utf8.RuneCountInString(in.String())
 	if times < 0 {
 		times = 0
 	}
